@@ -103,7 +103,6 @@ ASSIGNS(v->elem.base, v->cap)
 FREES(v->elem.base)
 ENSURES(V_WF(v) && v->count == OLD(v->count))
 ENSURES(v->cap == OLD(v->cap) || (v->cap == sz && sz > OLD(v->cap)))
-ENSURES(sz <= OLD(v->cap) ==> v->elem.base == OLD(v->elem.base))
 #ifndef VF_VEC_EMPTY
 ENSURES(V_BYTE(v, vf_w_g) == OLD(V_BYTE(v, vf_w_g)))
 #endif
@@ -135,7 +134,6 @@ ENSURES(V_WF(v) && v->count == sz)
 ENSURES(vf_cons_calls == ((sz > OLD(v->count) && v->elem.xtor.cons != NULL) ? sz - OLD(v->count) : 0))
 ENSURES(vf_dest_calls == ((sz < OLD(v->count) && v->elem.xtor.dest != NULL) ? OLD(v->count) - sz : 0))
 ENSURES(!vf_xtor_bad)
-ENSURES(sz <= OLD(v->cap) ==> (v->elem.base == OLD(v->elem.base) && v->cap == OLD(v->cap)))
 ;
 
 /* C09: at aborts exactly when the index is at or beyond size */
